@@ -19,10 +19,12 @@ class Spec:
         self.name, self.kind, self.pos, self.named = name, kind, list(pos), dict(named or {})
         self.observed, self.uses_meta = observed, uses_meta
         self.op_name = name          # which uninterpreted operation the node runs (changes when it `become`s another)
+        self.decl_named = tuple(sorted(self.named))    # keywords the operation was declared with (part of its identity)
 
     def clone(self):
         c = Spec(self.name, self.kind, list(self.pos), dict(self.named), self.observed, self.uses_meta)
         c.op_name = self.op_name
+        c.decl_named = self.decl_named
         return c
 
     @property
@@ -103,7 +105,7 @@ class Built:
         self.model = self._build(specs)
 
     def fname(self, spec):
-        return 'F_%s_%s' % (spec.op_name, '_'.join(sorted(spec.named)))
+        return 'F_%s_%s' % (spec.op_name, '_'.join(spec.decl_named))
 
     def _op(self, spec):
         B = self
